@@ -242,3 +242,27 @@ impl Mk {
 pub fn sentence(n: u32, k: u32, id: &[u8], payload: &[u8], fill: u8) -> Vec<u8> {
     Mk::new(n, k, id, payload, fill).render()
 }
+
+/// Value of the run of hex digits (first eight) right after the FIRST '*' that follows the start
+/// delimiter, if there is one.
+pub fn hex_after_first_star(line: &[u8]) -> Option<u32> {
+    let mut s = line;
+    if s.first() == Some(&b'\\') {
+        let close = s[1..].iter().position(|&c| c == b'\\')?;
+        s = &s[1 + close + 1..];
+    }
+    if !matches!(s.first(), Some(b'!') | Some(b'$')) {
+        return None;
+    }
+    let star = s.iter().position(|&c| c == b'*')?;
+    let t = &s[star + 1..];
+    let nh = t.iter().take_while(|c| c.is_ascii_hexdigit()).count();
+    if nh == 0 {
+        return None;
+    }
+    let mut v: u64 = 0;
+    for &c in &t[..nh.min(8)] {
+        v = v * 16 + (c as char).to_digit(16).unwrap() as u64;
+    }
+    Some(v as u32)
+}
